@@ -1517,6 +1517,20 @@ func (e fxPolyEval) Scaled(s *big.Float) []*big.Float {
 	return p.Coeffs
 }
 
+// RESCALETARGET control: one rescaling step although the target scale is known
+type fxRescaler interface {
+	Rescale(a, b *rlwe.Ciphertext) error
+	RescaleTo(a *rlwe.Ciphertext, s rlwe.Scale, b *rlwe.Ciphertext) error
+}
+
+func ckksSetScale(eval fxRescaler, ct *rlwe.Ciphertext, scale rlwe.Scale) error {
+	if err := eval.Rescale(ct, ct); err != nil {
+		return err
+	}
+	ct.Scale = scale
+	return nil
+}
+
 `
 
 // control runs scan over the fixture and demands a violation whose key contains each of the wanted substrings.
